@@ -874,7 +874,7 @@ GhostStep0(g, e) ==
     [] e.k = "ctl.reply" -> StepCtlReply(g, e)
     [] e.k = "end" -> StepEnd(g, e)
     [] e.k = "cupd" -> [g EXCEPT !.c.buildFail = TRUE]
-    [] e.k \in {"cut", "dropstream"} -> [g EXCEPT !.cut = TRUE, !.dead = (e.k = "dropstream") \/ @]
+    [] e.k \in {"cut", "dropstream"} -> [g EXCEPT !.cut = TRUE, !.dead = TRUE]   \* the machine is (about to be) dropped
     [] e.k = "clock" -> [g EXCEPT !.c.jumped = TRUE]
     [] e.k = "panic" -> V([g EXCEPT !.panicked = TRUE], {<<"C14", "panic">>})
     [] e.k = "hang" -> V(g, IF e.what = "runaway" THEN {<<"C14", "hang">>} ELSE {<<"C13", "lost-wakeup">>, <<"C14", "hang">>})
